@@ -169,7 +169,7 @@ PROPS = {
                     F + "_remove_pid_and_handle_cid_refs_deletion",
                     F + "_validate_and_check_cid_lock"], r"post/(outcome|fs|arg\d+|locks)"),
         "fault": True,
-        "scenario_select": [r"fault\[.*\]/.*/(X\d-.*|F1-.*)"],
+        "scenario_select": [r"fault\[.*\]/.*/(X\d-.*|F1-.*|pre:.*)"],
         "lemmas": ["C13/unbound-pid-can-be-stored-at-once"],
         "lemma_select": [r"lemma/C13/.*"],
     },
